@@ -345,7 +345,7 @@ func (p *Proxy) handleCONNECT(r responder.Responder, proxyReq *http.Request) err
 		req.Close = true
 		// Every exchange gets its own responder: status, headers and Content-Length
 		// of one response must not carry over into the next one on the same tunnel.
-		exchangeResponder := responder.NewRawHTTPResponder(tlsConn)
+		exchangeResponder := responder.NewRawHTTPResponderFor(tlsConn, req)
 		if err := p.handleHTTP(exchangeResponder, req); err != nil {
 			slog.Error("Error processing HTTP request in CONNECT tunnel", "host", proxyReq.Host, "error", err)
 		}
